@@ -3,3 +3,5 @@ from contracts.encoder_c import CallEncodeTask, EncodeTask
 
 def add(run, tier):
     run.add(CallEncodeTask('C09'), EncodeTask('C09'))
+    for n in (0, 3, 8):
+        run.add(EncodeTask('C09', payload_len=n))
